@@ -156,6 +156,11 @@ def sysfaults(o, binary, rng, thorough):
             sc = ["strace", "-f", "-o", slog, "-e", "trace=write", "-P", path, "-e", "inject=write:error=ENOSPC:when=%d" % when,
                   binary, "db", os.path.join(work, "in.json"), trace]
             rc, out, err, to = common.run_proc(sc, 40, env=env)
+            if to:
+                # distinguish a hang from a slow machine: one retry with a generous deadline
+                import shutil as _sh
+                _sh.rmtree(ddir, ignore_errors=True)
+                rc, out, err, to = common.run_proc(sc, 240, env=env)
             try:
                 hit = "INJECTED" in open(slog, errors="replace").read()
                 os.remove(slog)
